@@ -252,4 +252,175 @@ theorem CloseRes.lowOnly {stack frm h l h' l'} (r : CloseRes stack frm h l h' l'
       · obtain ⟨v, _, h2⟩ := r.high u s' hh (by omega)
         rw [h2] at hu; cases hu
 
+theorem LInv.slot_inj {h : List Uv} {l : List Nat} (hi : LInv h l) {u u' s : Nat}
+    (h1 : h[u]? = some (Uv.opn s)) (h2 : h[u']? = some (Uv.opn s)) : u = u' := by
+  by_cases he : u = u'
+  · exact he
+  · exfalso
+    have m1 := hi.complete u s h1
+    have m2 := hi.complete u' s h2
+    have hs := hi.sorted
+    have : ∀ l : List Nat, l.Pairwise (Desc h) → u ∈ l → u' ∈ l → False := by
+      intro l hp
+      induction l with
+      | nil => intro h; simp at h
+      | cons x l ih =>
+        rw [List.pairwise_cons] at hp
+        intro a b
+        rcases List.mem_cons.mp a with rfl | a'
+        · rcases List.mem_cons.mp b with rfl | b'
+          · exact he rfl
+          · have := hp.1 u' b' s s h1 h2; omega
+        · rcases List.mem_cons.mp b with rfl | b'
+          · have := hp.1 u a' s s h2 h1; omega
+          · exact ih hp.2 a' b'
+    exact this l hs m1 m2
+
+theorem LInv.set_closed {h : List Uv} {l : List Nat} (hi : LInv h l) {id : Nat} {w : Val}
+    (hc : h[id]? = some (Uv.closed w)) (v : Val) : LInv (h.set id (Uv.closed v)) l := by
+  have key : ∀ (u s : Nat), (h.set id (Uv.closed v))[u]? = some (Uv.opn s) ↔ h[u]? = some (Uv.opn s) := by
+    intro u s
+    by_cases he : id = u
+    · subst he
+      have hl := (List.getElem?_eq_some_iff.mp hc).1
+      rw [List.getElem?_set_self hl, hc]; simp
+    · rw [List.getElem?_set_ne he]
+  refine ⟨?_, ?_, ?_⟩
+  · refine hi.sorted.imp ?_
+    intro a b hab s s' h1 h2
+    exact hab s s' ((key _ _).mp h1) ((key _ _).mp h2)
+  · intro u hu
+    obtain ⟨s, hs⟩ := hi.allOpen u hu
+    exact ⟨s, (key _ _).mpr hs⟩
+  · intro u s hu
+    exact hi.complete u s ((key _ _).mp hu)
+
+theorem uvSet_LInv (c c' : C) (id : Nat) (v : Val) (hi : LInv c.heap c.openL) (h : uvSet c id v = .ok c') :
+    LInv c'.heap c'.openL ∧ (∀ (u s : Nat), c'.heap[u]? = some (Uv.opn s) → c.heap[u]? = some (Uv.opn s)) := by
+  unfold uvSet at h
+  split at h
+  · cases h
+  · rename_i w hw
+    cases h
+    refine ⟨hi.set_closed hw v, ?_⟩
+    intro u s hu
+    by_cases he : id = u
+    · subst he
+      have hl := (List.getElem?_eq_some_iff.mp hw).1
+      simp only [List.getElem?_set_self hl] at hu
+      cases hu
+    · simpa [List.getElem?_set_ne he] using hu
+  · split at h
+    · cases h; exact ⟨hi, fun u s hu => hu⟩
+    · cases h
+
+/-- every operation keeps the open list in order (no scoping assumption) -/
+theorem step_LInv (c c' : C) (op : Op) (r : Option Val) (hi : LInv c.heap c.openL)
+    (h : step c op = .ok (c', r)) :
+    LInv c'.heap c'.openL ∧
+      (∀ (u s : Nat), c'.heap[u]? = some (Uv.opn s) → c.heap[u]? = some (Uv.opn s) ∨ s < c.stack.length) := by
+  cases op with
+  | push v => simp only [step] at h; cases h; exact ⟨hi, fun u s hu => Or.inl hu⟩
+  | pop =>
+    simp only [step] at h; split at h
+    · cases h
+    · cases h; exact ⟨hi, fun u s hu => Or.inl hu⟩
+  | getLocal i =>
+    simp only [step] at h; split at h
+    · cases h; exact ⟨hi, fun u s hu => Or.inl hu⟩
+    · cases h
+  | setLocal i v =>
+    simp only [step] at h; split at h
+    · cases h; exact ⟨hi, fun u s hu => Or.inl hu⟩
+    · cases h
+  | capture i =>
+    simp only [step] at h; split at h
+    · rename_i hlt
+      split at h
+      · rename_i c1 id hc
+        cases h
+        obtain ⟨c2, id2, hc2, res⟩ := capture_spec c (c.fp + i) hi
+        rw [hc] at hc2; injection hc2 with hc2; injection hc2 with e1 e2; subst e1; subst e2
+        cases res with
+        | found _ _ => exact ⟨hi, fun u s hu => Or.inl hu⟩
+        | fresh l' hno hi' =>
+          refine ⟨hi', ?_⟩
+          intro u s hu
+          have hu : (c.heap ++ [Uv.opn (c.fp + i)])[u]? = some (Uv.opn s) := hu
+          by_cases hul : u < c.heap.length
+          · rw [List.getElem?_append_left hul] at hu; exact Or.inl hu
+          · rw [List.getElem?_append_right (by omega)] at hu
+            have : u - c.heap.length = 0 := by
+              rcases Nat.eq_zero_or_pos (u - c.heap.length) with h0 | h0
+              · exact h0
+              · have : ([Uv.opn (c.fp + i)] : List Uv)[u - c.heap.length]? = none := by
+                  rw [List.getElem?_eq_none_iff]; simp; omega
+                rw [this] at hu; cases hu
+            rw [this] at hu; simp at hu; subst hu
+            exact Or.inr hlt
+      · cases h
+    · cases h
+  | close i =>
+    simp only [step] at h; split at h
+    · rename_i h' l' hc
+      cases h
+      have res := closeLoop_spec _ _ _ _ _ _ hi hc
+      exact ⟨res.inv, fun u s hu => Or.inl (res.lowOnly u s hu).2⟩
+    · cases h
+  | uget k =>
+    simp only [step] at h; split at h
+    · cases h
+    · split at h
+      · cases h; exact ⟨hi, fun u s hu => Or.inl hu⟩
+      · cases h
+  | fget k =>
+    simp only [step] at h; split at h
+    · cases h
+    · split at h
+      · cases h; exact ⟨hi, fun u s hu => Or.inl hu⟩
+      · cases h
+  | uset k v =>
+    simp only [step] at h; split at h
+    · cases h
+    · split at h
+      · rename_i c1 hg
+        cases h
+        obtain ⟨h1, h2⟩ := uvSet_LInv _ _ _ _ hi hg
+        exact ⟨h1, fun u s hu => Or.inl (h2 u s hu)⟩
+      · cases h
+  | fset k v =>
+    simp only [step] at h; split at h
+    · cases h
+    · split at h
+      · rename_i c1 hg
+        cases h
+        obtain ⟨h1, h2⟩ := uvSet_LInv _ _ _ _ hi hg
+        exact ⟨h1, fun u s hu => Or.inl (h2 u s hu)⟩
+      · cases h
+  | callc n ks =>
+    simp only [step] at h; split at h
+    · split at h
+      · cases h; exact ⟨hi, fun u s hu => Or.inl hu⟩
+      · cases h
+    · cases h
+  | callm n =>
+    simp only [step] at h; split at h
+    · cases h; exact ⟨hi, fun u s hu => Or.inl hu⟩
+    · cases h
+  | ret =>
+    simp only [step] at h
+    split at h
+    · cases h
+    · split at h
+      · cases h
+      · split at h
+        · split at h
+          · rename_i h' l' hc
+            cases h
+            have res := closeLoop_spec _ _ _ _ _ _ hi hc
+            exact ⟨res.inv, fun u s hu => Or.inl (res.lowOnly u s hu).2⟩
+          · cases h
+        · cases h
+  | grow => simp only [step] at h; cases h; exact ⟨hi, fun u s hu => Or.inl hu⟩
+
 end Elk.Upvalue
